@@ -88,7 +88,53 @@ pub struct Policy {
     pub eof_at: Option<usize>,
 }
 
+impl Frag {
+    pub fn to_json(&self) -> String {
+        match self {
+            Frag::One => "one".into(),
+            Frag::Full => "full".into(),
+            Frag::Uniform(m) => format!("uniform{}", m),
+            Frag::Geometric(m) => format!("geometric{}", m),
+            Frag::Boundary => "boundary".into(),
+            Frag::Mixture => "mixture".into(),
+        }
+    }
+    pub fn parse(s: &str) -> Frag {
+        if let Some(m) = s.strip_prefix("uniform") {
+            return Frag::Uniform(m.parse().unwrap_or(1));
+        }
+        if let Some(m) = s.strip_prefix("geometric") {
+            return Frag::Geometric(m.parse().unwrap_or(1));
+        }
+        match s {
+            "one" => Frag::One,
+            "boundary" => Frag::Boundary,
+            "mixture" => Frag::Mixture,
+            _ => Frag::Full,
+        }
+    }
+}
+
 impl Policy {
+    /// a policy is part of a replay file only for runs that could not be executed to the end in
+    /// the reporting process (process crash / hang): the decisions are then re-derived from it
+    pub fn to_json(&self) -> serde_json::Value {
+        serde_json::json!({
+            "frag": self.frag.to_json(), "intr_pct": self.intr_pct, "pend_pct": self.pend_pct, "max_burst": self.max_burst,
+            "boundaries": self.boundaries, "err_at": self.err_at.map(|(o, c)| vec![o as u64, c as u64]), "eof_at": self.eof_at,
+        })
+    }
+    pub fn from_json(v: &serde_json::Value) -> Policy {
+        Policy {
+            frag: Frag::parse(v["frag"].as_str().unwrap_or("full")),
+            intr_pct: v["intr_pct"].as_u64().unwrap_or(0) as usize,
+            pend_pct: v["pend_pct"].as_u64().unwrap_or(0) as usize,
+            max_burst: v["max_burst"].as_u64().unwrap_or(0) as usize,
+            boundaries: v["boundaries"].as_array().map(|a| a.iter().map(|x| x.as_u64().unwrap_or(0) as usize).collect()).unwrap_or_default(),
+            err_at: v["err_at"].as_array().and_then(|a| Some((a.first()?.as_u64()? as usize, a.get(1)?.as_u64()? as u8))),
+            eof_at: v["eof_at"].as_u64().map(|x| x as usize),
+        }
+    }
     pub fn draw(r: &mut Rng, boundaries: Vec<usize>, is_async: bool) -> Policy {
         let frag = match r.below(9) {
             0 => Frag::One,
